@@ -292,7 +292,116 @@ def gen_keywords(repo):
     return text, len(kws)
 
 
+def rust_char(lit, table, rel):
+    """Rust character literal (plain, backslash escape or unicode escape) -> the character"""
+    body = lit[1:-1]
+    simple = {"\\\\": "\\", "\\n": "\n", "\\t": "\t", "\\r": "\r", "\\'": "'", "\\0": "\0", '\\"': '"'}
+    if len(body) == 1:
+        return body
+    if body in simple:
+        return simple[body]
+    m = re.fullmatch(r"\\u\{([0-9a-fA-F]+)\}", body)
+    if m:
+        return chr(int(m.group(1), 16))
+    raise ExtractionError(table, rel, f"character literal {lit} not understood")
+
+
+def lean_char(c):
+    if c == "\\":
+        return "'\\\\'"
+    if c == "'":
+        return "'\\''"
+    if 0x20 < ord(c) < 0x7F:
+        return "'" + c + "'"
+    return "(Char.ofNat %d)" % ord(c)
+
+
+CHAR_LIT = r"'(?:\\u\{[0-9a-fA-F]+\}|\\.|[^'\\])'"
+
+
+def gen_plugin_spec(repo):
+    """the lexical table of `fn plugin_parser`: escape character, escapable set, the two separators; plus
+    shape assertions (look-ahead test of the trailing separator, the second-`=` rejection, the three trims,
+    the two emptiness checks) whose disappearance is an extraction failure"""
+    T = "PluginSpec"
+    rel = "slicec/src/slice_options.rs"
+    src = read(repo, rel, T)
+    body = fn_body(src, "plugin_parser", T, rel)
+    m = re.search(r"match\s+c\s*", body)
+    if not m:
+        raise ExtractionError(T, rel, "`match c` not found in plugin_parser")
+    arms = block_after(body, m.end())
+    if arms is None:
+        raise ExtractionError(T, rel, "arms of `match c` not found")
+    # arm 1: <esc> if matches!(char_iter.peek(), Some(<c1> | <c2> ...)) => push(next)
+    m1 = re.search(r"(" + CHAR_LIT + r")\s+if\s+matches!\(\s*char_iter\.peek\(\)\s*,\s*Some\(\s*((?:" + CHAR_LIT + r"\s*\|?\s*)+)\)\s*\)\s*=>\s*\{\s*"
+                   r"string_buffer\.push\(char_iter\.next\(\)\.unwrap\(\)\);\s*\}", arms)
+    if not m1 or arms[:m1.start()].strip():
+        raise ExtractionError(T, rel, "first arm is not `<esc> if matches!(char_iter.peek(), Some(..)) => { string_buffer.push(char_iter.next().unwrap()); }`")
+    esc = rust_char(m1.group(1), T, rel)
+    escapable = [rust_char(x, T, rel) for x in re.findall(CHAR_LIT, m1.group(2))]
+    rest = arms[m1.end():]
+    # arm 2: <sep> => { if char_iter.peek().is_some() { push(Default); string_buffer = key; state = Key } }
+    m2 = re.match(r"\s*,?\s*(" + CHAR_LIT + r")\s*=>\s*", rest)
+    if not m2:
+        raise ExtractionError(T, rel, "second arm (argument separator) not found")
+    arg_sep = rust_char(m2.group(1), T, rel)
+    b2 = block_after(rest, m2.end() - 1)
+    if b2 is None or not re.fullmatch(r"\s*if\s+char_iter\.peek\(\)\.is_some\(\)\s*\{\s*plugin_args\.push\(Default::default\(\)\);\s*"
+                                      r"string_buffer\s*=\s*&mut\s+plugin_args\.last_mut\(\)\.unwrap\(\)\.0;\s*state\s*=\s*State::Key;\s*\}\s*", b2):
+        raise ExtractionError(T, rel, "argument-separator arm has an unexpected shape (look-ahead test / new pair / Key state)")
+    rest = rest[rest.find(b2) + len(b2) + 1:]
+    # arm 3: <kv> => match state { Path => push(<kv>), Key => { buffer = value; state = Value }, Value => { return Err(..) } }
+    m3 = re.match(r"\s*,?\s*(" + CHAR_LIT + r")\s*=>\s*match\s+state\s*", rest)
+    if not m3:
+        raise ExtractionError(T, rel, "third arm (key/value separator, `match state`) not found")
+    kv_sep = rust_char(m3.group(1), T, rel)
+    b3 = block_after(rest, m3.end())
+    if b3 is None:
+        raise ExtractionError(T, rel, "body of `match state` not found")
+    mp = re.search(r"State::Path\s*=>\s*string_buffer\.push\((" + CHAR_LIT + r")\)", b3)
+    if not mp or rust_char(mp.group(1), T, rel) != kv_sep:
+        raise ExtractionError(T, rel, "State::Path arm does not push the key/value separator literally")
+    if not re.search(r"State::Key\s*=>\s*\{\s*string_buffer\s*=\s*&mut\s+plugin_args\.last_mut\(\)\.unwrap\(\)\.1;\s*state\s*=\s*State::Value;\s*\}", b3):
+        raise ExtractionError(T, rel, "State::Key arm has an unexpected shape")
+    if not re.search(r"State::Value\s*=>\s*\{\s*return\s+Err\(\"", b3):
+        raise ExtractionError(T, rel, "State::Value arm does not reject the second separator")
+    rest = rest[rest.find(b3) + len(b3) + 1:]
+    if not re.fullmatch(r"\s*,?\s*_\s*=>\s*string_buffer\.push\(c\)\s*,?\s*", rest):
+        raise ExtractionError(T, rel, "default arm is not `_ => string_buffer.push(c)` or there are additional arms")
+    if not re.search(r"while\s+let\s+Some\(c\)\s*=\s*char_iter\.next\(\)", body) or not re.search(r"char_iter\s*=\s*s\.chars\(\)\.peekable\(\)", body):
+        raise ExtractionError(T, rel, "the loop is not `while let Some(c) = char_iter.next()` over `s.chars().peekable()`")
+    # after the loop: three trims, two emptiness checks, three error returns in all
+    for pat, what in ((r"plugin_path\.trim\(\)", "path trim"), (r"key\.trim\(\)", "key trim"), (r"value\.trim\(\)", "value trim"),
+                      (r"if\s+path\.is_empty\(\)\s*\{\s*return\s+Err\(", "empty-path check"),
+                      (r"if\s+arg\.0\.is_empty\(\)\s*\{\s*return\s+Err\(", "empty-key check"),
+                      (r"Ok\(Plugin\s*\{\s*path\s*,\s*args\s*\}\)", "Ok(Plugin { path, args })")):
+        if not re.search(pat, body):
+            raise ExtractionError(T, rel, f"{what} not found")
+    n_err = len(re.findall(r"return\s+Err\(", body))
+    if n_err != 3:
+        raise ExtractionError(T, rel, f"{n_err} error returns, 3 understood")
+    if re.search(r"\b(assert!|assert_eq!|panic!|unreachable!|todo!|unimplemented!)\s*\(|\.expect\(", body):
+        raise ExtractionError(T, rel, "a panic-capable macro is present in plugin_parser")
+    text = f"""-- GENERATED by translator/extract.py from slicec/src/slice_options.rs (fn plugin_parser) — do not edit.
+namespace Slicec.Gen
+/-- the character of the first arm: `{m1.group(1)} if matches!(char_iter.peek(), Some(..))` -/
+def pluginEscapeChar : Char := {lean_char(esc)}
+/-- the characters a backslash escapes (the alternatives inside `Some(..)`) -/
+def pluginEscapable : List Char := [{", ".join(lean_char(c) for c in escapable)}]
+/-- the arm that starts a new `(key, value)` pair when more characters follow -/
+def pluginArgSep : Char := {lean_char(arg_sep)}
+/-- the arm that is matched against `state` (literal in the path, key→value, second one rejected) -/
+def pluginKvSep : Char := {lean_char(kv_sep)}
+/-- number of `return Err(..)` sites (second separator, empty path, empty key) -/
+def pluginErrorSites : Nat := {n_err}
+end Slicec.Gen
+"""
+    return text, len(escapable) + 4
+
+
 TABLES = {
+    "PluginSpec": gen_plugin_spec,
     "VarintArms": gen_varint_arms,
     "CodecPanics": gen_codec_panics,
     "Keywords": gen_keywords,
